@@ -906,3 +906,14 @@ Proof.
 Qed.
 
 End Th.
+
+(* the model of a history is stateless: the answer to the last call does not depend on the calls before *)
+Lemma history_stateless (R : Type) r0 r1 radd rmul rinv (pre : list (acall R)) (c : acall R) :
+  analyze_history R r0 r1 radd rmul rinv (pre ++ [c])
+  = analyze_history R r0 r1 radd rmul rinv pre ++ [run_acall R r0 r1 radd rmul rinv c].
+Proof. unfold analyze_history. rewrite map_app. reflexivity. Qed.
+
+Lemma history_pointwise (R : Type) r0 r1 radd rmul rinv (calls : list (acall R)) i c :
+  nth_error calls i = Some c ->
+  nth_error (analyze_history R r0 r1 radd rmul rinv calls) i = Some (run_acall R r0 r1 radd rmul rinv c).
+Proof. intros H. unfold analyze_history. apply map_nth_error. exact H. Qed.
